@@ -9,6 +9,7 @@ CFG = {
             "and every way a string ends; all 256 bytes after each prefix; text with every split into reads; short mixed streams "
             "(multi-byte text, invalid bytes, CSI/OSC/DCS/APC/SS3) with every split at every byte offset; parameters overflowing a Go int; "
             "C0 controls between the ESC and the \\ of an ST after every kind of control string (repaired F102c) and every kind of invalid byte after a character uniseg joins to what follows (repaired F102d), every split; "
+            "streams longer than bufio's 4096-byte buffer in chunks that do not fit it (cut by bufio; the op carries the reads as really issued) with clusters, multi-byte runes, invalid bytes and sequences straddling the buffer boundary; "
             "grammar-generated long streams and raw fuzz (incl. invalid UTF-8) with random splits; oracles on the implementation's output: Spec machine (Prints merged), Print width, and for text streams 'a cluster is delivered in pieces only at a read boundary or in front of an invalid byte'; non-trivial = the model delivers something besides EOF, "
             "distinct by (bytes, reads)",
     "trusted_base": ["Spec/VT500.lean: transcription of the Williams VT500 table and the seven documented extensions (reviewed by hand)",
@@ -16,7 +17,7 @@ CFG = {
                      "that the model meets (model_meets_stdlib_contract), that determines the functions (stdlib_contract_determines_*), and that is checked clause by clause against the REAL stdlib on every case of every run "
                      "(harness/cmd/C02/stdlibcontract.go; counters stdlib-contract-checked / stdlib-contract-broken = 0; a broken clause is a FAIL[stdlib-contract] verdict); the bodies of readRune/print are interpreted from the regenerated skeletons "
                      "(readRune_body_eq_model, print_body_eq_model, proved on the extracted bodies themselves) over this reader model; trusted: FirstGraphemeClusterInString = 'split the builder at the oracle's cluster length', "
-                     "and that every read fits bufio's free space (4096 bytes; the harness reads at most 4000)",
+                     "and that a read larger than bufio's free space is cut to it (the harness reader does what bufio's Read(buf[w:]) does; family buffer-boundary)",
                      "uniseg is a parameter (clusterAt, widths), computed by the harness with the real library; its prefix hypothesis, the Respects hypothesis (never joins a C0 control: counter oracle-joins-c0 = 0) "
                      "and the width hypothesis of print_width (verdict W!) are checked per case",
                      "extractor recognition of statements is by their printed source after the receiver, parameters and local variables have been renamed canonically in declaration order (round 4: a pure rename of locals no longer alarms); "
